@@ -587,6 +587,52 @@ def payload_bases():
             'FaultControlMessage': fault_control, 'STA5635Command': sta_cmd, 'STA5635CommandResponse': sta_resp}
 
 
+def value_families():
+    """Families of value classes that travel as the variable part of a carrier message, selected by a type tag in the
+    carrier's fixed part: every (tag -> construct, NamedTuple class) entry of the library's own registries.
+
+    Each family: name; header/enum (where the C++ side documents the payload format of every tag); carriers (C++ struct
+    key, tag member, length member, Python attribute holding the value, make(value, interface) -> message object);
+    entries (tag value, adapter, sub-header struct key or None, sub-header member values, sub-tag documentation)."""
+    m, cfg, fc, sol, md, ts, defs = _messages()
+    g = cfg._conf_gen
+    iface = cfg.InterfaceID(cfg.TransportType.SERIAL, 1)
+
+    def set_config(v, interface):
+        return cfg.SetConfigMessage(v, interface=interface)
+
+    def config_response(v, interface):
+        o = cfg.ConfigResponseMessage()
+        o.config_object = v
+        o.interface = interface
+        return o
+
+    def fault_control(v, interface):
+        return fc.FaultControlMessage(v)
+
+    config_entries = [{'tag': int(t), 'adapter': a, 'doc': ('configuration.h', 'ConfigType', int(t))}
+                      for t, a in g.CONFIG_MAP.items()]
+    config_entries += [{'tag': int(cfg.ConfigType.INTERFACE_CONFIG), 'adapter': a, 'interface': iface,
+                        'sub': 'InterfaceConfigSubmessage',
+                        'sub_values': {'interface.type': int(iface.type), 'interface.index': int(iface.index), 'subtype': int(t)},
+                        'doc': ('configuration.h', 'InterfaceConfigType', int(t))}
+                       for t, a in g.INTERFACE_CONFIG_MAP.items()]
+    fault_entries = [{'tag': int(t), 'adapter': a, 'doc': ('fault_control.h', 'FaultType', int(t))}
+                     for t, a in fc._class_gen.TYPE_MAP.items()]
+    return [
+        {'name': 'configuration values', 'entries': config_entries,
+         'carriers': [
+             {'struct': 'SetConfigMessage', 'tag': 'config_type', 'length': 'config_length_bytes', 'attr': 'config_object',
+              'make': set_config, 'cls': cfg.SetConfigMessage},
+             {'struct': 'ConfigResponseMessage', 'tag': 'config_type', 'length': 'config_length_bytes', 'attr': 'config_object',
+              'make': config_response, 'cls': cfg.ConfigResponseMessage}]},
+        {'name': 'fault control payloads', 'entries': fault_entries,
+         'carriers': [
+             {'struct': 'FaultControlMessage', 'tag': 'fault_type', 'length': 'payload_length_bytes', 'attr': 'payload',
+              'make': fault_control, 'cls': fc.FaultControlMessage}]},
+    ]
+
+
 def subject_for(s, _cache={}):
     """Python counterpart of the C++ struct `s` (an entry of the layout JSON), or None."""
     m, cfg, fc, sol, md, ts, defs = _messages()
